@@ -377,6 +377,60 @@ fn desc_sweep(_t: Tier, i: u64) -> Value {
     json!({"train": i / SWEEP_BITS, "packets": sweep_train(i / SWEEP_BITS).iter().map(|p| hex(p)).collect::<Vec<_>>(), "flipped_bit": i % SWEEP_BITS})
 }
 
+// ---- trains longer than announced by a multiple of 65536, into storages above 65535 bytes ------
+
+#[derive(Clone, Debug, PartialEq, Eq, Hash, Serialize, Deserialize)]
+pub struct LongCase {
+    pub lab: Lab,
+    /// announced PDU length
+    pub announced: u16,
+    /// received length = announced + 65536 + delta
+    pub delta: i8,
+    pub first_payload: u16,
+    pub frag_payload: u16,
+    pub storage: u32,
+}
+
+fn long_strategy(_t: Tier) -> BoxedStrategy<LongCase> {
+    bx((lab_addr_or_bcast(), 1u16..3000, prop_oneof![3 => Just(0i8), 1 => -3i8..=3], 0u16..3000, 3500u16..=4094, 70_000u32..=140_000)
+        .prop_map(|(lab, announced, delta, first_payload, frag_payload, storage)| LongCase { lab, announced, delta, first_payload, frag_payload, storage }))
+}
+
+fn check_long(c: &LongCase, st: &mut Stats) -> Result<(), String> {
+    use crate::oracle::refcodec::RefPacket;
+    let target = (c.announced as i64 + 65536 + c.delta as i64) as usize;
+    let l = c.lab.bytes();
+    let total_len = (2 + l.len() + c.announced as usize) as u16;
+    let mk = |start: bool, end: bool, payload: Vec<u8>| -> Vec<u8> {
+        RefPacket { start, end, lt: if start { c.lab.lt() } else { 3 }, frag_id: Some(9), total_len: if start { Some(total_len) } else { None }, label: if start { l.clone() } else { vec![] }, exts: vec![], ptype: if start { Some(0x0800) } else { None }, first_type: None, payload, crc: if end { Some(0) } else { None } }.encode(false)
+    };
+    // the end fragment must carry enough that the intermediates stay <= 65535 in total
+    let end_payload = (target.saturating_sub(65535)).max(1).min(4090).max((c.announced as usize + 2).min(4090));
+    let mut seq = vec![mk(true, false, pdu_bytes((c.first_payload as usize).min(c.announced as usize), 1))];
+    let mut carried = (c.first_payload as usize).min(c.announced as usize);
+    let mut k = 0u32;
+    while carried + end_payload < target {
+        let n = (c.frag_payload as usize).min(target - end_payload - carried);
+        k += 1;
+        seq.push(mk(false, false, pdu_bytes(n, 10 + k)));
+        carried += n;
+        if seq.len() > 40 {
+            break;
+        }
+    }
+    seq.push(mk(false, true, pdu_bytes(target - carried, 7)));
+    forge_trailers(&mut seq);
+    st.class(if c.delta == 0 { "exactly-65536-longer" } else { "near-65536-longer" });
+    let (delivered, ends_open) = feed_and_judge(1, c.storage as usize, &seq, st)?;
+    st.class_if(delivered > 0, "delivered(must be a verified one)");
+    if ends_open > 0 {
+        st.nontrivial(hash_of(c));
+        st.class("end-arrived-with-open-train");
+    }
+    st.sample(|| json!({"announced": c.announced, "received": target, "fragments": seq.len(), "storage": c.storage}));
+    Ok(())
+}
+
 pub fn property() -> Property {
     Property {
         id: "C03",
@@ -394,6 +448,15 @@ pub fn property() -> Property {
                 strategy,
                 check,
                 required_classes: &["delivered-some", "delivered-none", "no-fault", "train-from-encapsulator", "spliced-same-id", "fault-drop", "fault-dup", "fault-burst", "fault-truncate", "fault-crc", "fault-total-length", "forged-consistent-crc"],
+            }),
+            Box::new(GenPart {
+                name: "overlong-trains-huge-storage",
+                rule: "trains longer than announced by 65536 + {-3..3} bytes with a consistent (forged) CRC, into storages of 70000..140000 bytes: only an untruncated length comparison rejects them",
+                cases: (4_000, 100_000),
+                fuzz_decode: None,
+                strategy: long_strategy,
+                check: check_long,
+                required_classes: &["exactly-65536-longer", "end-arrived-with-open-train"],
             }),
             Box::new(EnumPart {
                 name: "every-single-bit-flip",
